@@ -678,17 +678,39 @@ func TestKillPrefixes(t *testing.T) {
 	for pi, prog := range progs {
 		prefix := []KStep{run("A", "B"), w("f1.txt", "1")}
 		// kill positions: in A, in B
+		// ... each in four environments: started in the project, started elsewhere with --spokfile,
+		// and with the cache file / cache directory read-only for the duration of that run; and with the
+		// victim's command failing instead of spok being killed
+		type envT struct {
+			elsewhere bool
+			ro        string
+		}
 		for _, victim := range []string{"A", "B"} {
 			for _, cont := range conts {
-				steps := append(append([]KStep(nil), prefix...), KStep{Op: "run", Tasks: []string{"A", "B"}, Kill: victim, CutAbs: -1})
-				steps = append(steps, cont...)
-				steps = append(steps, run("A", "B"))
-				c := KillCase{Tasks: prog, Init: init, Steps: steps}
-				if pi == 0 && victim == "A" && len(cont) == 0 {
-					s.Sample(map[string]any{"spokfile": c.source(), "steps": c.Steps})
+				for ei, e := range []envT{{}, {elsewhere: true}, {ro: "file"}, {ro: "dir"}} {
+					for _, kill := range []bool{true, false} {
+						for _, force := range []bool{false, true} {
+							if force && (ei == 0 || !kill) && !ev.Thorough() {
+								continue
+							}
+							bad := KStep{Op: "run", Tasks: []string{"A", "B"}, CutAbs: -1, Elsewhere: e.elsewhere, ROCache: e.ro, Force: force}
+							if kill {
+								bad.Kill = victim
+							} else {
+								bad.Fail = []string{victim}
+							}
+							steps := append(append([]KStep(nil), prefix...), bad)
+							steps = append(steps, cont...)
+							steps = append(steps, run("A", "B"))
+							c := KillCase{Tasks: prog, Init: init, Steps: steps}
+							if pi == 0 && victim == "A" && len(cont) == 0 && ei < 2 && kill {
+								s.Sample(map[string]any{"spokfile": c.source(), "steps": c.Steps})
+							}
+							s.Class("enumerated_kill_position")
+							one(c)
+						}
+					}
 				}
-				s.Class("enumerated_kill_position")
-				one(c)
 			}
 		}
 		// every byte prefix of the cache file after the second run (length probed once: <= 200 bytes)
